@@ -167,6 +167,10 @@ def gen_case(rng, direction, opts=None):
             s += "/"
         if "\n" in s and direction != "local" and False:
             continue
+        if rng.chance(1, 10):
+            # a pattern that is empty once its trailing slashes are trimmed matches nothing and changes nothing
+            # about the patterns after it
+            pats.append(rng.pick(["/", "//", ""]))
         pats.append(s)
     flags = {"delete": rng.chance(1, 2) if opts.get("delete", True) else False, "excludes": pats, "jobs": rng.pick([1, 2, 4, 16]), "verbose": rng.chance(1, 4)}
     rootname = "dst"
@@ -217,16 +221,19 @@ def gen_case(rng, direction, opts=None):
     return case
 
 
-def gen_many_case(rng, direction):
+def gen_many_case(rng, direction, stale_heavy=None):
     """Hundreds of small files in about 150 directories with long names: the directory list, the file
     listing and the delete list each exceed 64 KiB, the transfer queue is far longer than any job count."""
     n = rng.range(300, 600)
     src, dst, states = {}, {}, {}
     new, old = (1_700_000_000, 0), (1_600_000_000, 0)
+    # in half of the cases most of the destination is stale, so that the delete list alone is well over 64 KiB
+    pick = rng.chance(1, 2)
+    stale_heavy = pick if stale_heavy is None else stale_heavy
     for i in range(n):
-        p = "dir-%03d-%s/file-%04d-%s" % (i % 150, "x" * 100, i, "y" * 20)
+        p = "dir-%03d-%s/file-%04d-%s" % (i % 150, "x" * 100, i, "y" * (120 if stale_heavy else 20))
         data = b"content %d" % i
-        st = rng.pick(["absent", "absent", "absent", "same", "same", "size", "srcgone", "srcgone"])
+        st = rng.pick(["absent", "same", "srcgone", "srcgone", "srcgone", "srcgone", "srcgone", "size"] if stale_heavy else ["absent", "absent", "absent", "same", "same", "size", "srcgone", "srcgone"])
         states[p] = st
         if st == "srcgone":
             dst[p] = (data, old)
@@ -236,7 +243,7 @@ def gen_many_case(rng, direction):
             dst[p] = (data, new)
         elif st == "size":
             dst[p] = (data + b"+", old)
-    flags = {"delete": rng.chance(2, 3), "excludes": rng.pick([[], [], ["file-00*"], ["dir-01*"]]), "jobs": rng.pick([1, 4, 16, 64]), "verbose": False}
+    flags = {"delete": True if stale_heavy else rng.chance(2, 3), "excludes": rng.pick([[], [], ["file-00*"], ["dir-01*"]]), "jobs": rng.pick([1, 4, 16, 64]), "verbose": False}
     return {"src": src, "dst": dst, "states": states, "flags": flags, "direction": direction, "dstname": "dst", "srcname": "src", "dst_exists": True}
 
 
@@ -462,7 +469,7 @@ def _c04_worker(args):
                 fail = ("%d:%d" % (rng.range(1, 6), rng.pick([5, 28])), rng.pick(["datawrite", "rename", "mutating"]))
             sshfault = None
             plain = sorted(p for p in transfer if re.fullmatch(r"[A-Za-z0-9._/-]+", p) and case["dstname"] == "dst" and case["srcname"] == "src")
-            if (mode == 8 or idx % 40 == 7) and direction != "local" and plain:
+            if (mode == 8 or idx % 80 == 7) and direction != "local" and plain:
                 # the ssh client of one planned file's transfer dies: unlike a fault inside copia this is the
                 # ordinary way a transfer fails, and exit status 0 still has to mean "everything delivered"
                 victim = rng.pick(plain)
@@ -610,7 +617,7 @@ def _c14_worker(args):
             rng = SplitMix.derive(seedv, "c14", idx)
             case = gen_case(rng, direction, {"clash": False})
             if idx % 50 == 9:
-                case = gen_many_case(rng, direction)
+                case = gen_many_case(rng, direction, stale_heavy=True if idx % 100 == 9 else None)
                 cnt("cases_with_hundreds_of_files")
             ow = OneWay(os.path.join(wroot, "w%d" % lo), case)
             fl = case["flags"]
@@ -921,11 +928,13 @@ def _c09_worker(args):
         edit = name in scen and scen[name].get("edit_before_rerun")
 
         def edit_source():
-            for pth in sorted(transfer):
+            for i, pth in enumerate(sorted(transfer)):
                 full = os.path.join(ow.src, pth)
-                data = open(full, "rb").read()
+                data = bytes(b ^ 0x5A for b in open(full, "rb").read())
                 st = os.stat(full)
-                write_file(full, bytes(b ^ 0x5A for b in data), (st.st_mtime_ns // 1_000_000_000 + 100, 0))
+                # same length / a quarter of the length / a little longer
+                data = data if i % 3 == 0 else (data[: len(data) // 4] if i % 3 == 1 else data + b"grown")
+                write_file(full, data, (st.st_mtime_ns // 1_000_000_000 + 100, 0))
 
         if edit:
             restore()
